@@ -479,6 +479,45 @@ func (u UJC) MarshalJSON() ([]byte, error) {
 	return []byte(u.Got), nil
 }
 
+// Chain: a long linked value kept in a handle, so that the same object graph
+// can be encoded again after a call on it failed half-way. Whether the deepest
+// marshaler fails is decided by the context given to the call (an argument),
+// not by mutating the value.
+type Chain struct {
+	V    int    `json:"v"`
+	M    MJX    `json:"m"`
+	Next *Chain `json:"next,omitempty"`
+}
+
+type MJX struct {
+	Last bool `json:"-"`
+}
+
+func (m MJX) MarshalJSON(ctx context.Context) ([]byte, error) {
+	verifsim.Yield(seamCBMarshal)
+	if m.Last && ctx != nil {
+		if v, _ := ctx.Value(ctxKey{}).(string); strings.Contains(v, "CBERR") {
+			Count("cb_error")
+			return nil, ErrCB
+		}
+	}
+	if m.Last {
+		return []byte(`"last"`), nil
+	}
+	return []byte(`"n"`), nil
+}
+
+func newChain(depth int, seed int64) *Chain {
+	head := &Chain{V: 0}
+	cur := head
+	for i := 1; i < depth; i++ {
+		cur.Next = &Chain{V: i}
+		cur = cur.Next
+	}
+	cur.M.Last = true
+	return head
+}
+
 type WithCB struct {
 	A  int             `json:"a"`
 	M  MJ              `json:"m"`
@@ -658,6 +697,7 @@ func init() {
 	reg("UT", UT{}, "ucb")
 	reg("UJC", UJC{}, "ucb", "nostd")
 	reg("WithCB", WithCB{}, "mcb", "nostd")
+	reg("Chain", Chain{}, "mcb", "nostd")
 	reg("WithUCB", WithUCB{}, "ucb", "nostd")
 	reg("WithQ", WithQ{}, "mcb", "nostd")
 	reg("SliceMJ", []MJ(nil), "mcb")
